@@ -489,7 +489,7 @@ container); what is missing is the evaluation of the block pass on this family w
   level; they give the same MAP, which is what `docLookup` needs).
 For concrete strings both are evaluation (`decide +kernel`, see the examples above).
 
-OPEN: `doc_resolves_in_tree` — `doc_resolves_iff` states the result on the spliced tree
+OPEN (CLOSED by `doc_resolves_in_tree` below): `doc_resolves_in_tree` — `doc_resolves_iff` states the result on the spliced tree
 `spliceWith (inlineRun icfg) root` in front of the join / sourcepos passes (`postPasses … = .ok t`); that
 the `Link` node (kind, url, title, children) survives these two passes unchanged up to the `sourcepos`
 attribute — `Within ⟨.inl (.link u ti), …⟩ t` — needs
@@ -499,4 +499,380 @@ attribute — `Within ⟨.inl (.link u ti), …⟩ t` — needs
 
 OPEN (item 4 of the task, untouched): prefix-locality of the scanners (`defOnLines_exact` of
 `Props/C13Trace.lean`, missing lemma `refParse_local`).
+-/
+
+/-! ## (2') the tree `parseDoc` RETURNS: through the join and sourcepos passes -/
+
+namespace MdIt.Pipeline
+open MdIt.Block.Tr (Call docCalls docTrace DefOnLines)
+open MdIt.C13D (ChainOK useOf labelOf look linkNode isLink)
+open MdIt.C11S (PlainTxt)
+open MdIt.InlineOps (byteLen)
+
+/-- a node the join pass does not touch itself: neither a text node nor an emphasis marker -/
+def Solid (n : Node) : Prop := n.isText = false ∧ markerToText n = n
+
+theorem solid_blk (k : Block.Kind) (r : Option (Nat × Nat)) (a : List (List Char × List Char)) (cs : List Node) :
+    Solid ⟨.blk k, r, a, cs⟩ := ⟨rfl, rfl⟩
+
+/-- `n` is `t` or below it, every node on the way down (`t` excluded, `n` included) being `Solid` -/
+inductive SWithin : Node → Node → Prop
+  | self (t : Node) : SWithin t t
+  | under {n c t : Node} : c ∈ t.children → Solid c → SWithin n c → SWithin n t
+
+theorem SWithin.within {n t : Node} (h : SWithin n t) : Within n t := by
+  induction h with
+  | self => exact .self _
+  | under hc _ _ ih => exact .under hc ih
+
+theorem mem_mergeLoop {x : Node} (hx : x.isText = false) : ∀ (rest : List Node) (cur : Node),
+    x ∈ cur :: rest → x ∈ mergeLoop cur rest
+  | [], cur, h => by simpa [mergeLoop] using h
+  | nxt :: rest, cur, h => by
+    simp only [mergeLoop]
+    split
+    · rename_i hb
+      simp only [Bool.and_eq_true] at hb
+      have h1 : x ≠ cur := by intro e; rw [e, hb.1] at hx; cases hx
+      have h2 : x ≠ nxt := by intro e; rw [e, hb.2] at hx; cases hx
+      have : x ∈ rest := by
+        rcases List.mem_cons.mp h with e | h'
+        · exact absurd e h1
+        · rcases List.mem_cons.mp h' with e | h''
+          · exact absurd e h2
+          · exact h''
+      exact List.mem_cons_of_mem _ (mem_mergeLoop hx rest _ (List.mem_cons_of_mem _ this))
+    · rcases List.mem_cons.mp h with e | h'
+      · rw [e]; exact List.mem_cons_self
+      · exact List.mem_cons_of_mem _ (mem_mergeLoop hx rest nxt h')
+
+theorem mem_fragmentsJoin {c : Node} {cs : List Node} (hc : c ∈ cs) (hs : Solid c) : c ∈ fragmentsJoin cs := by
+  unfold fragmentsJoin
+  refine List.mem_filter.mpr ⟨?_, by simp [keep, hs.1]⟩
+  have h1 : c ∈ pass1 cs := by
+    unfold pass1
+    exact List.mem_map.mpr ⟨c, hc, hs.2⟩
+  cases hp : pass1 cs with
+  | nil => rw [hp] at h1; cases h1
+  | cons d r => rw [hp] at h1; exact mem_mergeLoop hs.1 r d h1
+
+theorem solid_join {c : Node} (hs : Solid c) : Solid (joinNode c) := by
+  rw [joinNode_eq]
+  obtain ⟨h1, h2⟩ := hs
+  cases c with
+  | mk k r a cs =>
+    refine ⟨h1, ?_⟩
+    unfold markerToText at h2 ⊢
+    split
+    · rename_i heq
+      simp only at heq
+      simp only [heq] at h2
+      have := congrArg Node.kind h2
+      simp at this
+    · rfl
+
+/-- the join pass keeps every `Solid` path -/
+theorem SWithin.join {n t : Node} (h : SWithin n t) : SWithin (joinNode n) (joinNode t) := by
+  induction h with
+  | self => exact .self _
+  | @under c t hc hs _ ih =>
+    refine .under (c := joinNode c) ?_ (solid_join hs) ih
+    rw [joinNode_eq (n := t), joinList_eq_map]
+    exact List.mem_map.mpr ⟨c, mem_fragmentsJoin hc hs, rfl⟩
+
+theorem mem_sourceposList {src : List Char} {marks : List SourceMap.Mark} :
+    ∀ (cs cs' : List Node), sourceposList src marks cs = .ok cs' → ∀ c ∈ cs,
+      ∃ c', sourceposNode src marks c = .ok c' ∧ c' ∈ cs'
+  | [], _, _, c, hc => by cases hc
+  | d :: ds, cs', h, c, hc => by
+    simp only [sourceposList] at h
+    split at h
+    · cases h
+    · rename_i d' hd
+      split at h
+      · cases h
+      · rename_i ds' hds
+        cases h
+        rcases List.mem_cons.mp hc with rfl | hc'
+        · exact ⟨d', hd, List.mem_cons_self⟩
+        · obtain ⟨c', h1, h2⟩ := mem_sourceposList ds ds' hds c hc'
+          exact ⟨c', h1, List.mem_cons_of_mem _ h2⟩
+
+/-- the sourcepos pass keeps every path: the image of a node below `t` is below the image of `t` -/
+theorem Within.sourcepos {src : List Char} {marks : List SourceMap.Mark} {n t : Node} (h : Within n t) :
+    ∀ t', sourceposNode src marks t = .ok t' → ∃ n', sourceposNode src marks n = .ok n' ∧ Within n' t' := by
+  induction h with
+  | self => exact fun t' ht => ⟨t', ht, .self _⟩
+  | @under c t hc _ ih =>
+    intro t' ht
+    cases t with
+    | mk k r a cs =>
+      simp only [sourceposNode] at ht
+      split at ht
+      · cases ht
+      · rename_i a' _
+        split at ht
+        · cases ht
+        · rename_i cs' hcs
+          cases ht
+          obtain ⟨c', h1, h2⟩ := mem_sourceposList cs cs' hcs c hc
+          obtain ⟨n', h3, h4⟩ := ih c' h1
+          exact ⟨n', h3, .under h2 h4⟩
+
+/-- what the sourcepos pass does to a node: kind and range stay, attributes are appended to -/
+theorem sourceposNode_shapeR {src : List Char} {marks : List SourceMap.Mark} {k : Kind} {r : Option (Nat × Nat)}
+    {a : List (List Char × List Char)} {cs : List Node} {n' : Node}
+    (h : sourceposNode src marks ⟨k, r, a, cs⟩ = .ok n') :
+    ∃ a' cs', n' = ⟨k, r, a', cs'⟩ ∧ sourceposList src marks cs = .ok cs' := by
+  simp only [sourceposNode] at h
+  split at h
+  · cases h
+  · rename_i a' _
+    split at h
+    · cases h
+    · rename_i cs' hcs
+      cases h
+      exact ⟨a', cs', rfl, hcs⟩
+
+theorem sourceposList_one {src : List Char} {marks : List SourceMap.Mark} {c : Node} {cs' : List Node}
+    (h : sourceposList src marks [c] = .ok cs') : ∃ c', cs' = [c'] ∧ sourceposNode src marks c = .ok c' := by
+  simp only [sourceposList] at h
+  split at h
+  · cases h
+  · rename_i c' hc
+    cases h
+    exact ⟨c', rfl, hc⟩
+
+theorem sourceposList_nil {src : List Char} {marks : List SourceMap.Mark} {cs' : List Node}
+    (h : sourceposList src marks [] = .ok cs') : cs' = [] := by
+  simp only [sourceposList] at h; cases h; rfl
+
+/-- `n` is `t` or a block node below it in the BLOCK tree (no placeholder on the way) -/
+inductive BWithin : Block.BNode → Block.BNode → Prop
+  | self (t : Block.BNode) : BWithin t t
+  | under {n c t : Block.BNode} : c ∈ t.children → (∀ ct mp, c.kind ≠ .inlineRoot ct mp) → BWithin n c →
+      BWithin n t
+
+theorem mem_spliceWithList (f : List Char → List (Nat × Nat) → List Node) :
+    ∀ (cs : List Block.BNode) (c : Block.BNode), c ∈ cs → (∀ ct mp, c.kind ≠ .inlineRoot ct mp) →
+      spliceWith f c ∈ spliceWithList f cs
+  | [], _, h, _ => by cases h
+  | d :: rest, c, h, hk => by
+    rw [spliceWithList]
+    rcases List.mem_cons.mp h with rfl | h'
+    · split
+      · rename_i ct mp heq; exact absurd heq (hk ct mp)
+      · exact List.mem_cons_self
+    · have ih := mem_spliceWithList f rest c h' hk
+      split
+      · exact List.mem_append_right _ ih
+      · exact List.mem_cons_of_mem _ ih
+
+/-- the splice walk keeps the block tree's paths, and they are `Solid` -/
+theorem BWithin.splice (f : List Char → List (Nat × Nat) → List Node) {p root : Block.BNode}
+    (h : BWithin p root) : SWithin (spliceWith f p) (spliceWith f root) := by
+  induction h with
+  | self => exact .self _
+  | @under c t hc hk _ ih =>
+    refine .under (c := spliceWith f c) ?_ ?_ ih
+    · cases t with
+      | mk k r cs => simp only [spliceWith]; exact mem_spliceWithList f cs c hc hk
+    · cases c with
+      | mk k r cs => simp only [spliceWith]; exact solid_blk _ _ _ _
+
+/-- the join pass leaves a node with one non-empty text child alone -/
+theorem joinNode_text_child (k : Kind) (r r2 : Option (Nat × Nat)) (a a2 : List (List Char × List Char))
+    (s : List Char) (hs : s ≠ []) :
+    joinNode ⟨k, r, a, [⟨.inl (.text s), r2, a2, []⟩]⟩ = ⟨k, r, a, [⟨.inl (.text s), r2, a2, []⟩]⟩ := by
+  have hs' : s.isEmpty = false := by cases s <;> simp_all
+  rw [joinNode_eq, joinList_eq_map]
+  simp only [fragmentsJoin, pass1, List.map_cons, List.map_nil, markerToText, mergeAll, mergeLoop, List.filter_cons,
+    keep, Node.isText, Node.content, hs', Bool.and_false, Bool.not_false, if_true, List.filter_nil]
+  rw [joinNode_eq, joinList_eq_map]
+  simp [fragmentsJoin, pass1, mergeAll]
+
+/-- … and a node whose one child is a link over one non-empty text node -/
+theorem joinNode_link_child (k : Kind) (r r2 r3 : Option (Nat × Nat)) (a a2 a3 : List (List Char × List Char))
+    (u : List Nat) (ti : Option (List Char)) (s : List Char) (hs : s ≠ []) :
+    joinNode ⟨k, r, a, [⟨.inl (.link u ti), r2, a2, [⟨.inl (.text s), r3, a3, []⟩]⟩]⟩ =
+      ⟨k, r, a, [⟨.inl (.link u ti), r2, a2, [⟨.inl (.text s), r3, a3, []⟩]⟩]⟩ := by
+  rw [joinNode_eq, joinList_eq_map]
+  simp only [fragmentsJoin, pass1, List.map_cons, List.map_nil, markerToText, mergeAll, mergeLoop, List.filter_cons,
+    keep, Node.isText, Bool.false_and, Bool.not_false, if_true, List.filter_nil]
+  rw [joinNode_text_child _ _ _ _ _ s hs]
+
+/-- **`postPasses_link` (`postPasses_within` for the resolved use).**  A paragraph over ONE `Link` node
+    over ONE non-empty text node, on a `Solid` path of the spliced tree, is in the tree the join and
+    sourcepos passes return — kinds (url, title, text), ranges and child structure unchanged; only the
+    `data-sourcepos` attributes (if that pass is on) are new. -/
+theorem postPasses_link (cfg : DocCfg) (src : List Char) (t0 t : Node) (h : postPasses cfg src t0 = .ok t)
+    (r r2 r3 : Option (Nat × Nat)) (u : List Nat) (ti : Option (List Char)) (s : List Char) (hs : s ≠ [])
+    (hw : SWithin ⟨.blk .paragraph, r, [], [⟨.inl (.link u ti), r2, [], [⟨.inl (.text s), r3, [], []⟩]⟩]⟩ t0) :
+    ∃ a1 a2 a3, Within ⟨.blk .paragraph, r, a1, [⟨.inl (.link u ti), r2, a2, [⟨.inl (.text s), r3, a3, []⟩]⟩]⟩ t := by
+  unfold postPasses at h
+  have hw1 : SWithin ⟨.blk .paragraph, r, [], [⟨.inl (.link u ti), r2, [], [⟨.inl (.text s), r3, [], []⟩]⟩]⟩
+      (if cfg.hasJoin then joinNode t0 else t0) := by
+    split
+    · have := hw.join
+      rw [joinNode_link_child _ _ _ _ _ _ _ _ _ s hs] at this
+      exact this
+    · exact hw
+  simp only at h
+  split at h
+  · obtain ⟨n', h1, h2⟩ := hw1.within.sourcepos _ h
+    obtain ⟨a1, cs1, rfl, hc1⟩ := sourceposNode_shapeR h1
+    obtain ⟨c1, rfl, hc1'⟩ := sourceposList_one hc1
+    obtain ⟨a2, cs2, rfl, hc2⟩ := sourceposNode_shapeR hc1'
+    obtain ⟨c2, rfl, hc2'⟩ := sourceposList_one hc2
+    obtain ⟨a3, cs3, rfl, hc3⟩ := sourceposNode_shapeR hc2'
+    rw [sourceposList_nil hc3] at h2
+    exact ⟨a1, a2, a3, h2⟩
+  · cases h
+    exact ⟨[], [], [], hw1.within⟩
+
+/-- the same for the unresolved use: a paragraph over ONE non-empty text node -/
+theorem postPasses_text (cfg : DocCfg) (src : List Char) (t0 t : Node) (h : postPasses cfg src t0 = .ok t)
+    (r r2 : Option (Nat × Nat)) (s : List Char) (hs : s ≠ [])
+    (hw : SWithin ⟨.blk .paragraph, r, [], [⟨.inl (.text s), r2, [], []⟩]⟩ t0) :
+    ∃ a1 a2, Within ⟨.blk .paragraph, r, a1, [⟨.inl (.text s), r2, a2, []⟩]⟩ t := by
+  unfold postPasses at h
+  have hw1 : SWithin ⟨.blk .paragraph, r, [], [⟨.inl (.text s), r2, [], []⟩]⟩
+      (if cfg.hasJoin then joinNode t0 else t0) := by
+    split
+    · have := hw.join
+      rw [joinNode_text_child _ _ _ _ _ s hs] at this
+      exact this
+    · exact hw
+  simp only at h
+  split at h
+  · obtain ⟨n', h1, h2⟩ := hw1.within.sourcepos _ h
+    obtain ⟨a1, cs1, rfl, hc1⟩ := sourceposNode_shapeR h1
+    obtain ⟨c1, rfl, hc1'⟩ := sourceposList_one hc1
+    obtain ⟨a2, cs2, rfl, hc2⟩ := sourceposNode_shapeR hc1'
+    rw [sourceposList_nil hc2] at h2
+    exact ⟨a1, a2, h2⟩
+  · cases h
+    exact ⟨[], [], hw1.within⟩
+
+theorem Within.trans {a b c : Node} (h1 : Within a b) (h2 : Within b c) : Within a c := by
+  induction h2 with
+  | self => exact h1
+  | under hc _ ih => exact .under hc ih
+
+/-- **`doc_resolves_in_tree` (C13 on the tree `parseDoc` RETURNS; closes OPEN `doc_resolves_in_tree`).**
+    Hypotheses and `L` as in `doc_resolves_iff`.  For every use paragraph of the block tree — a
+    `Paragraph` node (range `r`) over the placeholder of a plain use `[T]` / `[T][]` / `[T][l]`, anywhere
+    in the block tree (`BWithin`: top level, in quotes, in list items, before or behind any definition) —
+    the RETURNED tree `t` (after the join and sourcepos passes) contains the paragraph with that range and
+    * no definition of `L` matches ⇒ its only child is the text node with the use, literally;
+    * otherwise its only child is the `Link` node whose url / title are those of the matching definition
+      with the SMALLEST LINE, over the one text node `T`.
+    (Only the `data-sourcepos` attribute lists `a₁ a₂ a₃` depend on the configuration.) -/
+theorem doc_resolves_in_tree (cfg : DocCfg) (hok : ChainOK (cfg.inlineCfg [])) (hmn : 2 ≤ cfg.maxNesting)
+    (hN : ∀ s, cfg.blockCfg.N (cfg.blockCfg.N s) = cfg.blockCfg.N s)
+    (src : List Char) (t : Node) (h : parseDoc cfg src = .ok t) :
+    ∃ (root : Block.BNode) (refs : Refs.RefMap) (L : List (Call × Refs.Def)),
+      Block.parseBlocks cfg.blockCfg src = .ok (root, refs) ∧
+      L.map (fun x => (Block.RuleId.reference, x.1.start, x.1.stop)) =
+        (docTrace cfg.blockCfg src).filter (fun e => e.1 = .reference) ∧
+      L.Pairwise (fun x y => x.1.stop ≤ y.1.start) ∧
+      (∀ x ∈ L, x.1.stop ≤ (Lines.splitLines src).length ∧
+        DefOnLines cfg.blockCfg src x.1.start x.1.stop x.2) ∧
+      ∀ (x : Nat) (T : List Char) (e : Option (List Char)) (r : Option (Nat × Nat)),
+        T ≠ [] → PlainTxt T → PlainTxt (e.getD []) →
+        BWithin ⟨.paragraph, r, [⟨.inlineRoot (useOf T e) [(0, x)], none, []⟩]⟩ root →
+        let hit := fun y : Call × Refs.Def => Refs.labelMatches cfg.blockCfg.N (labelOf T e) y.2
+        match L.find? hit with
+        | none =>
+          (∃ a1 a2, Within ⟨.blk .paragraph, r, a1,
+            [⟨.inl (.text (useOf T e)), some (x, x + byteLen (useOf T e)), a2, []⟩]⟩ t) ∧
+          ∀ y ∈ L, hit y = false
+        | some y =>
+          (∃ a1 a2 a3, Within ⟨.blk .paragraph, r, a1,
+            [⟨.inl (.link y.2.entry.dest (y.2.entry.title.map (fun ti => ti.map Char.ofNat))),
+              some (x, x + byteLen (useOf T e)), a2,
+              [⟨.inl (.text T), some (x + 1, x + (1 + byteLen T)), a3, []⟩]⟩]⟩ t) ∧
+          y ∈ L ∧ hit y = true ∧ ∀ z ∈ L, hit z = true → z = y ∨ y.1.stop ≤ z.1.start := by
+  obtain ⟨root, refs, L, hb, h1, h2, h3, hpost, h5⟩ := doc_resolves_iff cfg hok hmn hN src t h
+  refine ⟨root, refs, L, hb, h1, h2, h3, ?_⟩
+  intro x T e r hne hT he hbw hit
+  have h6 := h5 x T e hne hT he
+  have hsw := hbw.splice (inlineRun (cfg.inlineCfg refs))
+  rw [spliceWith_paragraph] at hsw
+  simp only at h6
+  have huse : useOf T e ≠ [] := by simp [useOf]
+  split at h6
+  · rename_i hf
+    simp only [hit, hf]
+    refine ⟨?_, h6.2⟩
+    rw [h6.1] at hsw
+    simp only [ofInlineList, ofInline, Inline.Node.newText] at hsw
+    exact postPasses_text cfg src _ t hpost _ _ _ huse hsw
+  · rename_i y hf
+    simp only [hit, hf]
+    refine ⟨?_, h6.2⟩
+    rw [h6.1] at hsw
+    simp only [ofInlineList, ofInline, linkNode, Inline.Node.newText] at hsw
+    exact postPasses_link cfg src _ t hpost _ _ _ _ _ _ hne hsw
+
+open MdIt.NodeRender (tA linkAttrs) in
+open MdIt.HtmlDecode (asChars) in
+/-- **the resolved use is rendered as an `a` element with that url and title**: a `Link` child of a node
+    of a parsed tree (the paragraph of `doc_resolves_in_tree`) renders as the trait calls
+    `open("a", attrs ++ [href = url] ++ [title = …]?)`, its children, `close("a")`, the url safe
+    (`doc_link_render`); `doc_href_output` writes the tag piece ` href="escape_html url"`. -/
+theorem resolved_use_renders (cfg : DocCfg) (src : List Char) (t : Node) (h : parseDoc cfg src = .ok t)
+    (p c : Node) (hp : Within p t) (hc : c ∈ p.children) (u : List Nat) (ti : Option (List Char))
+    (hk : c.kind = .inl (.link u ti)) :
+    SafeUrl u ∧ ∃ body, NodeRender.render cfg.entity (toRender cfg.langPrefix c) =
+      .ok ([.open tA (linkAttrs c.attrs (asChars u) ti)] ++ body ++ [.close tA]) :=
+  (doc_link_render cfg src t h c ((Within.under hc (.self _)).trans hp)).1 u ti hk
+
+/-! ## "definitions themselves produce no output" -/
+
+/-- **`doc_definitions_no_node` (tree level).**  Every call of the reference rule the block pass of a
+    document makes — each definition of `doc_resolves_iff`'s `L` is read by exactly one of them — leaves
+    the children and the kind of the node under construction as they were: a definition contributes NO
+    node to the block tree, hence none to the tree `parseDoc` returns and nothing to the output. -/
+theorem doc_definitions_no_node {cfg : Block.Cfg} {src : List Char} {root : Block.BNode} {refs : Refs.RefMap}
+    (h : Block.parseBlocks cfg src = .ok (root, refs)) :
+    ∀ c ∈ docCalls cfg src, c.rule = .reference →
+      c.post.children = c.pre.children ∧ c.post.nodeKind = c.pre.nodeKind := by
+  obtain ⟨n, _, P⟩ := Block.Tr.parseBlocks_calls h
+  intro c hc hr
+  obtain ⟨f, hf⟩ := (P.good c hc).fired
+  rw [hr] at hf
+  exact Block.reference_no_node hf
+
+/-- documents consisting ONLY of definitions (adjacent, blank-separated, in a quote, in a list item,
+    with titles, multi-line) render to the empty string / to empty containers -/
+example : renderDoc false (exCfg false 100) "[a]: /u\n[b]: /v 't'\n\n[c]:\n  <w> \"x\"".toList = .ok [] := by
+  decide +kernel
+example : renderDoc false (exCfg false 100) "[foo  BAR]: /u\n".toList = .ok [] := by decide +kernel
+example : renderDoc false (exCfg false 100) "> [a]: /u".toList = .ok "<blockquote>\n</blockquote>\n".toList := by
+  decide +kernel
+/-- the rendered form of the one-paragraph-plus-definition document -/
+example : renderDoc false (exCfg false 100) "[foo  BAR]\n\n[FOO bar]: /u \"t&\"".toList =
+    .ok "<p><a href=\"/u\" title=\"t&amp;\">foo  BAR</a></p>\n".toList := by decide +kernel
+/-- `BWithin` is satisfiable: a paragraph child of the root -/
+example (p : Block.BNode) (hp : p.kind = .paragraph) (r : Option (Nat × Nat)) (rest : List Block.BNode) :
+    BWithin p ⟨.root, r, p :: rest⟩ :=
+  .under (by simp) (by intro ct mp h; rw [hp] at h; cases h) (.self _)
+
+end MdIt.Pipeline
+
+/-
+OPEN (state after the follow-up).
+ * CLOSED: `doc_resolves_in_tree` (tree `parseDoc` returns; `postPasses_link` / `postPasses_text`), and the
+   trait-call form of the resolved use (`resolved_use_renders` through `doc_link_render`).
+ * `doc_definitions_no_node` is the TREE-level form of "definitions produce no output" (every `reference` call
+   of the block pass leaves children and kind untouched).  The STRING-level statements
+     `doc_definitions_no_output`: a document of one-line plain definitions only renders to `""`, and
+     `doc_use_rendered`: `[T]\n\n[L]: /u "t"` renders to `<p><a href="/u" title="t">T</a></p>\n`
+   for ALL plain strings are still open (checked by `decide +kernel` on instances above): both need
+   `refParse_simple` (symbolic `Link.parseLinkDestination` / `parseLinkTitle` on an unknown string, see the
+   first OPEN item above) — not attempted in the follow-up budget —, and the second in addition the
+   serialisation of a three-node tree (`renderEvents` of Paragraph[Link[Text]]: `NodeRender.render` frames
+   are available through `doc_link_render`, the `escape_html` of the text child through `Props/C03`).
+ * `doc_resolves_family`, `refParse_local`: unchanged.
 -/
